@@ -41,7 +41,12 @@ def run_case(case, repo):
     tmp = tempfile.mkdtemp(prefix="bourse-selftest-")
     try:
         copy_repo(repo, tmp)
-        for (path, old, new) in case["edits"]:
+        if case.get("patch"):
+            r = subprocess.run("git init -q . && git apply %s" % case["patch"], shell=True, cwd=tmp, capture_output=True, text=True)
+            shutil.rmtree(os.path.join(tmp, ".git"), ignore_errors=True)
+            if r.returncode != 0:
+                return ("skipped", "patch does not apply to the current tree: " + r.stderr.strip()[:120], "")
+        for (path, old, new) in case.get("edits", []):
             p = os.path.join(tmp, path)
             try:
                 s = open(p).read()
